@@ -40,7 +40,7 @@ func emptySources(t *model.Type) []emptySrc {
 		in := model.AllFieldsStream(t.Desc)
 		for _, o := range []proto.UnmarshalOptions{{Merge: true}, {Merge: true, DiscardUnknown: true}, {}} {
 			func() {
-				defer func() { _ = recover() }() // a panic here is the contract's business, not this source's
+				defer func() { _ = recover() }() // whether this panics is judged by sub nildecode
 				_ = o.Unmarshal(in, t.Nil())
 			}()
 		}
@@ -498,6 +498,19 @@ func runC09(ctx *Ctx) {
 		}
 	}
 	for _, t := range ctx.types() {
+		if t.Desc.Fields().Len() == 0 {
+			continue
+		}
+		c := &Case{Sub: "nildecode", Type: string(t.Name)}
+		ctx.Eval(1)
+		if err := safely(func() error { return replayC09(ctx, c) }); err != nil {
+			ctx.Violation(c, err.Error())
+			ctx.T.Fail()
+		} else {
+			ctx.Nontrivial(string(t.Name), "nildecode")
+		}
+	}
+	for _, t := range ctx.types() {
 		fds := t.Desc.Fields()
 		for i := 0; i < fds.Len(); i++ {
 			fd := fds.Get(i)
@@ -559,6 +572,25 @@ func replayC09(ctx *Ctx, c *Case) error {
 		}
 		if err := emptyBattery(srcs[i].m, func(string) {}); err != nil {
 			return fmt.Errorf("%s of %s: %v", srcs[i].how, t.Name, err)
+		}
+		return nil
+	case "nildecode":
+		// decoding data into a nil message is an attempt to store into it: it must
+		// panic (or at least fail), never return success with the data dropped
+		in := model.AllFieldsStream(t.Desc)
+		if len(in) == 0 {
+			return nil
+		}
+		for _, o := range []struct {
+			name string
+			opts proto.UnmarshalOptions
+		}{{"Merge", proto.UnmarshalOptions{Merge: true}}, {"Merge+DiscardUnknown", proto.UnmarshalOptions{Merge: true, DiscardUnknown: true}},
+			{"default", proto.UnmarshalOptions{}}, {"AllowPartial", proto.UnmarshalOptions{AllowPartial: true}}} {
+			var err error
+			panicked := safely(func() error { err = o.opts.Unmarshal(in, t.Nil()); return nil }) != nil
+			if !panicked && err == nil {
+				return fmt.Errorf("Unmarshal (options: %s) of %d bytes into a nil %s returned nil: the data was silently dropped", o.name, len(in), t.Name)
+			}
 		}
 		return nil
 	case "nilwrapper":
